@@ -1117,3 +1117,50 @@ def rule_carry(ctx, R):
                           ["bb%d line %d" % (x, b.bb_line(x)) for x in p][-8:])
     R.note("reader fields carrying per-record state between functions: %d consumer(s) (0 while expiries are passed as arguments)" % n)
     R.trivial()
+
+
+def rule_ttl_applied(ctx, R):
+    """a record that carries an expiry is loaded with it: in the record loader every successful
+    exit is reached either where the TTL handed down from the expiry opcode is known to be None,
+    or after a storage call that receives it (path-sensitive).  An early return inside one type's
+    branch (the stream encoding) that skips a TTL application shared by all branches loads that
+    type without its TTL"""
+    import boolpath
+    b = ctx.prog.need(RD + "read_key_value_with_type")
+    ttl = [p for p in range(1, b.nargs + 1) if re.match(r"^std::option::Option<std::time::Duration>$", b.locals[p])]
+    if not ttl:
+        raise AnchorMissing("read_key_value_with_type has no Option<Duration> TTL parameter")
+
+    def is_ttl(b_, o):
+        if op_is_const(o):
+            return False
+        pl = op_place(o)
+        return "Option<" in b_.locals[pl["l"]] and bool(prov.origins(b_, pl["l"]).params() & set(ttl))
+
+    class Spec(boolpath.Spec):
+        def edges(s, b_, bbi, t):
+            return boolpath.none_edge(b_, bbi, t, is_ttl)
+
+        def call(s, b_, bbi, t):
+            m = boolpath.OPTION_TEST.match(t["f"] or "")
+            if m and t["a"] and is_ttl(b_, t["a"][0]):
+                return {"is_none": boolpath.A, "is_some": boolpath.N}.get(m.group(1))
+            return None
+    # storage calls that receive (something derived from) the TTL
+    applies = set()
+    for i, t in b.calls():
+        if callee(t).startswith("storage::engine::StorageEngine::"):
+            for a in t["a"]:
+                if not op_is_const(a) and (prov.operand_origins(b, a, deep=True).params() & set(ttl)) and "Duration" in b.locals[op_place(a)["l"]]:
+                    applies.add(i)
+    R.floor("ttl_applying_storage_calls", len(applies))
+    ex = boolpath.explore(b, Spec(), stop=applies)
+    import rules_zset
+    oks = rules_zset.ok_blocks(b)
+    bad = [e for e in oks if e in ex.reached]
+    R.inst(b.fn, "ttl-applied", {"ok_returns": len(oks), "reachable_with_a_ttl_that_was_not_applied": len(bad)})
+    if bad:
+        e = bad[0]
+        R.finding(b.fn, "ok-return:ttl-not-applied",
+                  "the record loader can return successfully (line %d) on a path that neither applied the record's TTL nor found it to be None: that value type is loaded as a persistent key although the dump carries its deadline" % b.bb_line(e), b.loc(e),
+                  ["bb%d line %d" % (x, b.bb_line(x)) for x in ex.witness(b, e)][-8:])
